@@ -13,9 +13,9 @@ CONSTANTS
   Anc <- Anc2
   Kinds <- ReviewKinds
   FanKinds <- ReviewKinds
-  Creators = {2}
+  Creators = {2, 4}
   MaxC = 2
-  MaxE = 2
+  MaxE = 1
   MaxR = 2
   MaxRC = 0
   MaxV = 1
